@@ -91,6 +91,8 @@ MULTI = [
 
 def upd_specs():
     specs = [["simple", v] for v in SIMPLE_VALUES]
+    # values that are not a dict or a list themselves but hold some (a tuple of cut ranges)
+    specs += [["simpletuple", [[0, 1], [2, 3]]], ["simpletuple", [{"k": [1]}, 5]]]
     specs += [["str", [["fld", p]]] for p in SINGLE_FIELDS]
     specs += [["str", m] for m in MULTI]
     return specs
@@ -217,6 +219,10 @@ def mids(v, acc):
         acc.add(id(v))
         for x in v:
             mids(x, acc)
+    elif isinstance(v, tuple):
+        # immutable itself; what it holds may not be
+        for x in v:
+            mids(x, acc)
     return acc
 
 
@@ -336,6 +342,9 @@ def run_addr(r, obs, ctl):
 
 
 DOTTED_CTXS = [
+    {"output.filename": "flat", "output": {"filename": "nested", "k": {"z": 1}}, "a": 1},
+    {"a.b": 5, "k": 0},
+    {"a.b.c": "flat", "a": {"b.c": "half", "b": {"c": "nested"}}},
     {"a": {"b.c": 1, "b": {"c": 2}}},
     {"a.b": {"c": 1}, "a": {"b": {"c": 2}}},
     {"input": {"run1.root": {"n": 1}, "run1": {"root": 5}}, "k": 0},
@@ -343,7 +352,8 @@ DOTTED_CTXS = [
 ]
 DOTTED_PATHS = [["a", "b.c"], ["a.b", "c"], ["a.b"], ["a", "b", "c"], ["input", "run1.root"],
                 ["input", "run1.root", "n"], ["input", "run1", "root"], ["a", "x.y"],
-                ["a", "b.c", "d.e"], ["a.b.c"], ["k", "z.z"]]
+                ["a", "b.c", "d.e"], ["a.b.c"], ["k", "z.z"], ["output.filename"],
+                ["output", "filename"], ["output", "k"]]
 
 
 def run_addr_dotted(r, obs, ctl):
@@ -372,6 +382,59 @@ def run_addr_dotted(r, obs, ctl):
                     ctl.fail("get_recursively-wrong-result:%s:dotted-component" % form,
                              "get_recursively(%r, %r) -> %s %r, reference lookup gives %r"
                              % (ctx, keys, out[0], out[1], exp))
+            # the dotted string made of the same characters always names the nested item (one
+            # key per dot-separated part), whatever keys with dots exist beside it
+            s = ".".join(p)
+            sp = s.split(".")
+            exp_s = R.get(ctx, sp)
+            out = ctl.call("get_recursively", "dotted-string-beside-dotted-key",
+                           lambda: LC.get_recursively(ctx, s),
+                           lambda: "get_recursively(%r, %r)" % (ctx, s))
+            obs.count("lookups")
+            ctl.evals += 1
+            if out[0] != "foreign":
+                good = out[0] == "LenaKeyError" if exp_s is R.ABSENT else \
+                    (out[0] == "ok" and out[1] is exp_s)
+                if not good:
+                    ctl.fail("get_recursively-wrong-result:string:dotted-key-beside",
+                             "get_recursively(%r, %r) -> %s %r, the item addressed by the keys %r "
+                             "is %r" % (ctx, s, out[0], out[1], sp, exp_s))
+            out = ctl.call("contains", "dotted-string-beside-dotted-key",
+                           lambda: LC.contains(ctx, s), lambda: "contains(%r, %r)" % (ctx, s))
+            obs.count("contains_calls")
+            ctl.evals += 1
+            if out[0] == "ok" and bool(out[1]) != (exp_s is not R.ABSENT):
+                ctl.fail("contains-disagrees-with-get_recursively:dotted-key-beside",
+                         "contains(%r, %r) = %r, the item addressed by %r is %r"
+                         % (ctx, s, out[1], sp, exp_s))
+            if not isinstance(exp_s, dict):
+                cfmt = R.cp(ctx0)
+                out = ctl.call("format_context", "dotted-string-beside-dotted-key",
+                               lambda: LC.format_context("{{" + s + "}}")(cfmt),
+                               lambda: "format_context('{{%s}}')(%r)" % (s, cfmt))
+                ctl.evals += 1
+                if out[0] != "foreign":
+                    good = out[0] == "LenaKeyError" if exp_s is R.ABSENT else \
+                        (out[0] == "ok" and out[1] == str(exp_s))
+                    if not good:
+                        ctl.fail("format_context-wrong-item:dotted-key-beside",
+                                 "format_context('{{%s}}') on %r -> %r, the addressed item is %r"
+                                 % (s, cfmt, out, exp_s))
+            cu = R.cp(ctx0)
+            valu = (["D"], cu)
+            out = ctl.call("UpdateContext", "dotted-string-beside-dotted-key",
+                           lambda: LC.UpdateContext("zz", "{{" + s + "}}", value=True,
+                                                    default="DFLT")(valu),
+                           lambda: "UpdateContext('zz', '{{%s}}', value=True, default='DFLT') "
+                                   "on %r" % (s, ctx0))
+            obs.count("update_calls")
+            ctl.evals += 1
+            if out[0] != "foreign":
+                want = "DFLT" if exp_s is R.ABSENT else exp_s
+                if out[0] != "ok" or cu.get("zz") != want:
+                    ctl.fail("UpdateContext-wrong-value:value:dotted-key-beside",
+                             "UpdateContext('zz', '{{%s}}', value=True, default='DFLT') on %r "
+                             "gives %r, the addressed item is %r" % (s, ctx0, cu, exp_s))
             for form, key in (("list", list(p)), ("tuple", tuple(p))):
                 c = R.cp(ctx0)
                 val = (["D"], c)
@@ -721,6 +784,8 @@ def run_upd(r, obs, ctl):
     import lena.context as LC
     import lena.core
     sub, spec, ctxs = r["sub"], r["spec"], r["ctxs"]
+    if spec[0] == "simpletuple":
+        spec = ["simple", tuple(R.cp(x) for x in spec[1])]
     substr = ".".join(sub)
     if spec[0] == "simple":
         pieces, flds, single = None, [], False
@@ -947,6 +1012,34 @@ def run_tostr(r, obs, ctl):
                 ctl.fail("to_string-depends-on-key-order",
                          "to_string(%r) = %r but with keys in the order %r it is %r"
                          % (d, out[1], e, o2[1]))
+    # keys of types that cannot be ordered with each other (a str beside an int / None): the
+    # dictionary has no canonical form - to_string may refuse it (LenaValueError) but must not
+    # return strings that depend on the order of the keys
+    for d in items:
+        if not isinstance(d, dict) or not d:
+            continue
+        extra = rng.choice([1, None, 2.5, 0])
+        where = rng.choice(["top", "nested"])
+        m = R.cp(d)
+        if where == "top":
+            m[extra] = "x"
+        else:
+            m["nest"] = {"s": 1, extra: 2, "t": {"a": 1, "b": 2}}
+        outs = []
+        for _ in range(4):
+            e = R.shuffled(rng, m)
+            o = ctl.call("to_string", "mixed-type-keys", lambda: LC.to_string(e),
+                         lambda: "to_string(%r)" % (e,))
+            ctl.evals += 1
+            obs.count("to_string_mixed_key_calls")
+            if o[0] == "ok":
+                outs.append((o[1], e))
+        if len(set(x[0] for x in outs)) > 1:
+            ctl.fail("to_string-depends-on-key-order:mixed-type-keys",
+                     "equal dictionaries with keys of mixed types: to_string(%r) = %r but "
+                     "to_string(%r) = %r" % (outs[0][1], outs[0][0],
+                                             [x for x in outs if x[0] != outs[0][0]][0][1],
+                                             [x for x in outs if x[0] != outs[0][0]][0][0]))
     for i in range(len(items)):
         for j in range(i + 1, len(items)):
             if strs[i] is None or strs[j] is None:
@@ -1066,3 +1159,7 @@ def run_malformed(r, obs, ctl):
 
 
 RULE += (' Added: every formatter is reused on a sequence of contexts with and without the fields; keys containing a dot addressed in list / tuple / dictionary notation.')
+RULE += (' Added: simple update values that are tuples holding lists / dicts; dotted strings looked '
+         'up (get_recursively, contains, format_context, UpdateContext value=True) in contexts '
+         'that also have keys containing dots; to_string on dictionaries with keys of mutually '
+         'unorderable types (may refuse, may not depend on key order).')
